@@ -10,9 +10,10 @@ git apply "$src/patch.diff" || { echo "APPLY-FAIL"; exit 1; }
 suite=$( (GOPROXY=off go build ./... && GOPROXY=off go test -count=1 ./... && cd internal/app && GOPROXY=off go build ./... ) 2>&1 | tail -3)
 echo "$suite" | grep -q "^ok" || { echo "SUITE-FAILS-WITH-PATCH: $suite"; exit 1; }
 cp "$src"/zz_demo*_test.go . 2>/dev/null
-with=$(GOPROXY=off go test -count=1 -run 'Demo|demo|ZZ|Zz' . 2>&1 | tail -3)
+pat=$(grep -ho "^func Test[A-Za-z0-9_]*" "$src"/zz_demo*_test.go | sed 's/func //' | paste -sd'|')
+with=$(GOPROXY=off go test -count=1 -run "^($pat)\$" . 2>&1 | tail -3)
 git checkout -q -- . 
-without=$(GOPROXY=off go test -count=1 -run 'Demo|demo|ZZ|Zz' . 2>&1 | tail -3)
+without=$(GOPROXY=off go test -count=1 -run "^($pat)\$" . 2>&1 | tail -3)
 echo "with patch   : $(echo "$with" | tail -1)"
 echo "without patch: $(echo "$without" | tail -1)"
 if echo "$with" | grep -q "^FAIL" && echo "$without" | grep -q "^ok"; then echo "CONFIRMED $name"; else echo "NOT-CONFIRMED $name"; exit 1; fi
